@@ -237,10 +237,11 @@ def run_shard(spec, tier, seed, scratch):
     listing = dir_listing(tj, edit, scratch)
     # all products of per-directory permutations
     dirs = sorted(listing)
-    maxn = 4 if tier == 'quick' else 5
+    maxn = 4 if tier == 'quick' else 6     # lines of a pre-existing Manifest
+    maxd = 6                                # names in a directory
 
     def perms(n):
-        if n <= maxn:
+        if n <= maxd:
             return list(itertools.permutations(range(n)))
         base = list(range(n))
         out = [base[i:] + base[:i] for i in range(n)] + [base[::-1]]
@@ -248,7 +249,7 @@ def run_shard(spec, tier, seed, scratch):
             t = list(base)
             t[i], t[i + 1] = t[i + 1], t[i]
             out.append(t)
-        stats.notes.append(f'directories with {n} > {maxn} names: rotations, reversal and adjacent '
+        stats.notes.append(f'directories with {n} > {maxd} names: rotations, reversal and adjacent '
                            'transpositions instead of all permutations')
         return [tuple(x) for x in out]
     perms_per_dir = [perms(len(listing[d])) for d in dirs]
